@@ -284,9 +284,16 @@ func verifHosts(l *roundRobinLoadBalancer) []*Host { return l.hosts.Load().([]*H
 //@   local $crOpCode primitive.OpCode = 0
 //@   local $crDelivered bool = false
 //@   local $crTarget int = 0
+//@   local $crCached bool = false
+//@   local $crOrderOK bool = true
 //@   requires c != nil && c.pending != nil && c.codec != nil && c.conn != nil && c.closingMu != nil && nolocks() && !$arrived
 //@   after frame.RawCodec.DecodeRawFrame#1 set $crDecoded = (result1 == nil); $crStream = result0.Header.StreamId; $crOpCode = result0.Header.OpCode; $arrived = (result1 == nil); $arrivedStream = result0.Header.StreamId
-//@   before proxycore.Request.OnResult#1 set $crDelivered = true; $crTarget = valof(recv)
+//@   before proxycore.ClientConn.maybeCachePrepared#* set $crCached = true
+//@   before proxycore.Request.OnResult#1 set $crDelivered = true; $crTarget = valof(recv); $crOrderOK = ($crOpCode != primitive.OpCodeResult || $crCached || c.preparedCache == nil)
+// C08: a RESULT (possibly the answer to a PREPARE) is looked at by the prepared cache before the request - and
+// through it the client - learns about it; otherwise an EXECUTE of the new id can overtake the cache entry
+// and be answered UNPREPARED by a host that was never prepared
+//@   ensures cached-before-delivered: $crDelivered ==> $crOrderOK [C08]
 //@   ensures undecodable: !$crDecoded ==> result != nil && !$crDelivered
 //@   ensures unknown-stream: $crDecoded && $crOpCode != primitive.OpCodeEvent && !(0 <= $crStream && $crStream < MaxStreams && old(c.pending.$has)[$crStream]) ==> result != nil && !$crDelivered
 //@   ensures delivered-to-owner: $crDelivered ==> 0 <= $crStream && $crStream < MaxStreams && old(c.pending.$has)[$crStream] && $crTarget == old(c.pending.$val)[$crStream]
